@@ -10,7 +10,7 @@ Require Import Zrs.lib.RsPrelude Zrs.gen.RefTables Zrs.gen.Generated Zrs.model.B
 Require Import Zrs.proofs.C12_Fse.
 Require Import Zrs.model.BitIO Zrs.model.BitStream Zrs.model.SeqEnc Zrs.model.BlockDec Zrs.proofs.C12_Stream Zrs.proofs.C12_SeqStream Zrs.proofs.C12_Predef.
 Require Import Zrs.model.FseEnc Zrs.model.SeqSection Zrs.proofs.C12_Desc Zrs.proofs.C12_Section.
-Require Import Zrs.proofs.C12_SeqStreamR Zrs.proofs.C12_Modes Zrs.proofs.C12_AvoidBits.
+Require Import Zrs.proofs.C12_SeqStreamR Zrs.proofs.C12_Modes Zrs.proofs.C12_AvoidBits Zrs.proofs.C12_NormHalf.
 Require Import Zrs.model.FseNorm Zrs.proofs.C12_Norm Zrs.proofs.C12_NormTotal Zrs.proofs.C12_TableWf Zrs.proofs.C12_Covers Zrs.proofs.C12_General.
 Open Scope Z_scope.
 
@@ -224,6 +224,15 @@ Theorem C12_half_bounded_distribution_carries_bits : forall al probs ms,
     (forall i, (i < length probs)%nat -> nth i probs 0 <> 0 -> covers D (Z.of_nat i)).
 Proof. exact half_bounded_distribution_carries_bits. Qed.
 
+(** with the avoid-zero-bits option the normaliser never leaves a probability above half the table size, for every
+    histogram -- so every state of the table built from its output carries a bit *)
+Theorem C12_normaliser_with_avoid_is_half_bounded : forall counts max_log al probs,
+  5 <= max_log -> Forall (fun c => 0 <= c) counts -> 0 < last counts 0 -> (2 <= length counts)%nat ->
+  norm_counts counts max_log true = ROk (al, probs) ->
+  Forall (fun p => p <= 2 ^ (al - 1)) probs.
+Proof. exact norm_counts_half_bounded. Qed.
+
+Print Assumptions C12_normaliser_with_avoid_is_half_bounded.
 Print Assumptions C12_general_table_theorem_with_provenance.
 Print Assumptions C12_half_bounded_distribution_carries_bits.
 Print Assumptions C12_sequences_section_with_any_table_modes.
